@@ -117,7 +117,9 @@ CLAIMED = {
             'histories on real shared objects against the model and against fresh instances',
             'Theorems for every sequence of the modelled calls on a world of instances with lazily cached tokenizers and shared '
             'expression objects; tied to the code by running the same histories on real shared objects (observations and final '
-            'expression store compared) and re-checking every live expression after every call.',
+            'expression store compared) and re-checking every live expression after every call. The inventory of writes to objects '
+            'not created by the running call (gen/Writes.v, regenerated on every run) is proved confined to the tokenizer builders '
+            'and the publication (Tie/Writes.v): no query writes to its Licensing, its arguments, a module-level name or a class.',
             'boolean.py class attributes rewritten by each Licensing() are not modelled (never read by the modelled functions).', 'DESIGN.md section 4 C19'),
     'C20': ('Coq proof of an interleaving model (partial: statement granularity, not the Python runtime): for the statement order '
             'generated from the source on every run, every schedule of any number of threads gives every returned call a '
@@ -125,7 +127,8 @@ CLAIMED = {
             'all single-preemption schedules on the real code with trace validation against the model',
             'Invariant proof over all schedules of the abstract program of get_advanced_tokenizer; the program is regenerated from '
             'the AST on every run and Tie/ThreadProg.v re-proves its safety hypothesis; each real execution is replayed on the '
-            'model (traces_validated_against_impl).',
+            'model (traces_validated_against_impl). The inventory of statements that can write to an object the call did not create '
+            '(gen/Writes.v, regenerated from both source files) is proved confined to the tokenizer builders and the publication (Tie/Writes.v).',
             'Partial: bytecode-level switches inside a line, the GIL / free-threaded builds and C-level atomicity are not modelled.', 'DESIGN.md section 4 C20'),
     'C01': ('Coq proof, full statement on the model for both tokenizers: when parse succeeds, the literals of the expression are the '
             'license tokens in order, and the non-blank pieces of the text are the in-order concatenation of one group per token - an '
@@ -135,16 +138,19 @@ CLAIMED = {
             'piece walk, the unknown-run merger and greedy WITH grouping; bparse_literals for the second sentence.',
             'Premise: U+0020 is white space for the oracle (checked on the interpreter tables).', 'DESIGN.md section 4 C01'),
     'C04': ('Coq proof: a text that spells one stored name (any case, any white space, also around parentheses) is tokenized to exactly '
-            'one token over its whole span and parsed to the owning symbol, strict or not (recognise_alone, recognise_name); look-ups '
-            'depend only on lower-cased words + every name of generated tables in case / white-space variants and 12 operator contexts',
+            'one token over its whole span and parsed to the owning symbol, strict or not (recognise_alone, recognise_name); over a table '
+            'Licensing() accepted without operator words in its names the owner is the entry that declares the name (accepted_name_resolves); '
+            'look-ups depend only on lower-cased words + every name of generated tables in case / white-space variants and 12 operator contexts',
             'Theorems over the matcher and parser model for every table and text. The operator contexts (a name next to operators and '
             'other names) are decided by the oracle (expected tree built from the intended symbols) and the correspondence.',
             'Names inside longer expressions are covered by C02 / C17 theorems plus the oracle.', 'DESIGN.md section 4 C04'),
     'C15': ('Kernel computation on the index regenerated from the JSON on every run (both tables build, known keys, deprecated / '
-            'SPDX-less unknown) + Coq proof for any index (builds iff unambiguous; every name of a built table, alone, parses to its '
-            'entry) + exhaustive sweep of all bundled names and of both Licensings of synthetic indexes against the model',
-            'vm_compute facts in Tie/Index.v over gen/Index.v (2310 entries) and general theorems from C04 / C14; recognition of '
-            'every name in three letter cases, rendering, validation and flags are swept on the real bundled Licensings.',
+            'SPDX-less unknown; no name holds an operator word; every name has words) + Coq proof for any index (builds iff unambiguous; every '
+            'name of a built table, in any case and spacing, parses to its entry, renders as the key and validates; instantiated for every name '
+            'of both shipped tables) + exhaustive sweep of all bundled names and of both Licensings of synthetic indexes against the model',
+            'vm_compute facts in Tie/Index.v over gen/Index.v (2310 entries), the theorem over accepted tables (Proofs/Accepted.v: '
+            'accepted_name_resolves) instantiated in Tie/IndexNames.v, and general theorems from C04 / C14; recognition of every name in '
+            'three letter cases, rendering, validation and flags are also swept on the real bundled Licensings.',
             'The shipped index is ASCII; the ASCII part of the oracle is used for the computation.', 'DESIGN.md section 4 C15'),
     'C18': ('Coq proof, full statement on the model: for an alias-free table of single-word non-operator keys and a text without two '
             'adjacent plain words, Licensing.tokenize gives the same token list or the same error with either tokenizer, hence the same '
